@@ -41,7 +41,7 @@ theorem hinv_reserve {m : Nat} {s : State} (hI : HInv m s) (i : Nat) (x : Caller
     · exact absurd h hm
     · omega
   · intro c; rw [hh c]; exact hI.one c
-  · intro c cn hcn hd; rw [hh c]; exact hI.live c cn hcn hd
+  · intro hcl c cn hcn hd; rw [hh c]; exact hI.live hcl c cn hcn hd
   · intro c hc; rw [hh c]; exact hI.dang c hc
 
 /-- `mk`: the reserved slot becomes a fresh connection held by its creator. -/
@@ -49,7 +49,7 @@ theorem hinv_create {m : Nat} {s : State} (hI : HInv m s) (i : Nat) (x : Caller)
     (hx : s.callers[i]? = some x) (hpc : x.pc = .reserved)
     (t : State) (cn : Conn) (hcn : cn.dead = false ∧ cn.orphan = false)
     (htc : t.callers = s.callers) (htf : t.free = s.free) (hti : t.inbox = s.inbox)
-    (htn : t.conns = s.conns ++ [cn]) (htt : t.total = s.total) (htm : t.max = s.max) :
+    (htn : t.conns = s.conns ++ [cn]) (htt : t.total = s.total) (htm : t.max = s.max) (htcl : t.closed = s.closed) :
     HInv m (setPc t i x (.creating s.conns.length)) := by
   have hh : ∀ c, holders (setPc t i x (.creating s.conns.length)) c
       = holders s c + (if s.conns.length = c then 1 else 0) := by
@@ -81,7 +81,8 @@ theorem hinv_create {m : Nat} {s : State} (hI : HInv m s) (i : Nat) (x : Caller)
     by_cases hc : s.conns.length = c
     · have := hI.dang c (by omega); simp [hc]; omega
     · have := hI.one c; simp [hc]; omega
-  · intro c cn' hcn' hd
+  · intro hcl c cn' hcn' hd
+    have hcl' : s.closed = false := by rw [← htcl]; exact hcl
     rw [hh c]
     by_cases hc : s.conns.length = c
     · have := hI.dang c (by omega); simp [hc]; omega
@@ -91,7 +92,7 @@ theorem hinv_create {m : Nat} {s : State} (hI : HInv m s) (i : Nat) (x : Caller)
         have := lt_of_getElem? hcn2
         simp at this; omega
       rw [List.getElem?_append_left hlt] at hcn2
-      have := hI.live c cn' hcn2 hd
+      have := hI.live hcl' c cn' hcn2 hd
       simp [hc]; omega
   · intro c hc
     rw [hh c]
@@ -108,6 +109,9 @@ theorem markDead_callers (s : State) (d : Nat) : (markDead s d).callers = s.call
 theorem markDead_max (s : State) (d : Nat) : (markDead s d).max = s.max := by
   unfold markDead; split <;> (try split) <;> rfl
 
+theorem markDead_closed (s : State) (d : Nat) : (markDead s d).closed = s.closed := by
+  unfold markDead; split <;> (try split) <;> rfl
+
 theorem markDead_conn (s : State) (d : Nat) (x : Conn) (h : s.conns[d]? = some x) :
     ∃ y, (markDead s d).conns[d]? = some y ∧ y.dead = true := by
   have hlt := lt_of_getElem? h
@@ -120,7 +124,8 @@ theorem markDead_conn (s : State) (d : Nat) (x : Conn) (h : s.conns[d]? = some x
 theorem hinv_markDead_core {m : Nat} {s : State} (hI : HInv m s) (d : Nat) (x x' : Conn)
     (hx : s.conns[d]? = some x) (hd' : x.dead = false) (hx' : x'.dead = true ∧ x'.orphan = x.orphan)
     (t : State) (htc : t.callers = s.callers) (hti : t.inbox = s.inbox) (htf : t.free = s.free.erase d)
-    (htn : t.conns = s.conns.set d x') (htt : t.total = s.total - 1) (htm : t.max = s.max) : HInv m t := by
+    (htn : t.conns = s.conns.set d x') (htt : t.total = s.total - 1) (htm : t.max = s.max)
+    (htcl : t.closed = s.closed) : HInv m t := by
   have hlt := lt_of_getElem? hx
   have hcnt := countP_set_of (fun y : Conn => !y.dead) s.conns d x x' hx
   simp [hd', hx'.1] at hcnt
@@ -152,7 +157,8 @@ theorem hinv_markDead_core {m : Nat} {s : State} (hI : HInv m s) (d : Nat) (x x'
     have := hI.lim hm
     omega
   · intro c; exact Nat.le_trans (hh c).1 (hI.one c)
-  · intro c y hy hyd
+  · intro hcl c y hy hyd
+    have hcl' : s.closed = false := by rw [← htcl]; exact hcl
     rw [htn] at hy
     by_cases hcd : c = d
     · subst hcd
@@ -163,7 +169,7 @@ theorem hinv_markDead_core {m : Nat} {s : State} (hI : HInv m s) (d : Nat) (x x'
       have : ¬ d = c := fun h => hcd h.symm
       simp [this] at hy
       rw [(hh c).2 hcd]
-      exact hI.live c y hy hyd
+      exact hI.live hcl' c y hy hyd
   · intro c hc
     rw [htn] at hc
     have hc' : s.conns.length ≤ c := by simpa using hc
@@ -180,7 +186,7 @@ theorem hinv_markDead {m : Nat} {s : State} (hI : HInv m s) (d : Nat) : HInv m (
     · exact hI
     · rename_i hd
       have hd' : x.dead = false := by simpa using hd
-      exact hinv_markDead_core hI d x { x with dead := true } hx hd' ⟨rfl, rfl⟩ _ rfl rfl rfl rfl rfl rfl
+      exact hinv_markDead_core hI d x { x with dead := true } hx hd' ⟨rfl, rfl⟩ _ rfl rfl rfl rfl rfl rfl rfl
   · exact hI
 
 end TdModel.C27
